@@ -20,22 +20,22 @@ def run(chk):
         'distinct_nontrivial = distinct (call, abstract pre-state) steps that '
         'changed the table or the order')
     sh = common.stage_graph(chk, 'MC_Reorder3', 'MC_Reorder3.cfg' if q else 'MC_Reorder3_deep.cfg',
-                            ['a', 'b', 'c'], 3, limit=1500 if q else 60000,
+                            ['a', 'b', 'c'], 3, limit=chk.th(1500, 60000),
                             need_actions=['swap', 'reorder', 'sift', 'apply', 'drop'])
     # hundreds of held functions at once (levels with many hundreds of nodes)
-    sh += common.stage_histories(chk, ntraces=2 if q else 16, steps=900, nvars_choices=[5], nparts=2 if q else 16,
+    sh += common.stage_histories(chk, ntraces=chk.th(2, 16), steps=900, nvars_choices=[5], nparts=chk.th(2, 16),
                                  profile='many_held', tag='mh')
-    hs = common.stage_histories(chk, ntraces=96 if q else 5000,
-                                steps=40 if q else 80,
+    hs = common.stage_histories(chk, ntraces=chk.th(96, 5000),
+                                steps=chk.th(40, 80),
                                 nvars_choices=[2, 3, 4, 5, 3, 4, 1, 0],
                                 profile='reorder', tag='ro')
     sh += hs
     # everything held: all 256 functions of 3 variables, each starting order
-    sh += common.stage_histories(chk, ntraces=16 if q else 48, steps=0,
+    sh += common.stage_histories(chk, ntraces=chk.th(16, 48), steps=0,
                                  nvars_choices=[3], profile='allfun', tag='af')
     # many held: 40 random functions of 4-5 variables
-    sh += common.stage_histories(chk, ntraces=16 if q else 600,
-                                 steps=25 if q else 60, nvars_choices=[4, 5],
+    sh += common.stage_histories(chk, ntraces=chk.th(16, 600),
+                                 steps=chk.th(25, 60), nvars_choices=[4, 5],
                                  profile='reorder_many', tag='rm')
     chk.validate('TraceBDD', 'TraceBDD.cfg', sh)
 
